@@ -22,7 +22,7 @@
 (* the step).                                                              *)
 (***************************************************************************)
 EXTENDS Naturals, FiniteSets, Sequences, TLC, Json
-CONSTANTS Node, Topo, InitUp, MaxTog, MaxQ, BugInitEmpty, BugStaleInit, BugRelinkDrop, BugNoRepub, Gen,
+CONSTANTS Node, Topo, InitUp, MaxTog, MaxQ, BugInitEmpty, BugStaleInit, BugRelinkDrop, BugNoRepub, BugStaleChan, Gen,
           WSet    \* allowed values of w: BOOLEAN, or {TRUE} for big-step histories only
 Link == {<<a, b>> \in Node \X Node : {a, b} \in Topo /\ a # b}
 VARIABLES up, pend, sess, chan, subs, pubbed, view, q, cache, frozen, togs, relinks, waited, hist, done
@@ -35,7 +35,7 @@ Init == /\ up = InitUp
         /\ hist = <<[a |-> "init", n |-> "", id |-> 0, subs |-> {}, w |-> TRUE]>> /\ done = FALSE
 Rec(h) == hist' = IF Gen THEN Append(hist, h) ELSE hist
 Send(qq, from, tos, v) == [l \in Link |-> IF l[1] = from /\ l[2] \in tos THEN Append(qq[l], v) ELSE qq[l]]
-NeedsIter(n) == pend[n] # {} \/ (chan[n] /\ ~subs[n]) \/ (subs[n] /\ ~pubbed[n])
+NeedsIter(n) == pend[n] # {} \/ (chan[n] /\ ~subs[n] /\ ~(BugStaleChan /\ ~pubbed[n])) \/ (subs[n] /\ ~pubbed[n])
 Quiet == (\A l \in Link : q[l] = <<>>) /\ \A n \in Node : ~NeedsIter(n)
 CanStim == ~done /\ (waited => Quiet)
 \* ---- environment
@@ -72,7 +72,8 @@ Iter(n) ==
      IN /\ \A m \in s2 : Len(q2[<<n, m>>]) <= MaxQ
         /\ q' = q2 /\ sess' = [sess EXCEPT ![n] = s2] /\ pend' = [pend EXCEPT ![n] = {}]
         /\ cache' = [cache EXCEPT ![n] = IF new # {} /\ @ = "none" THEN (IF InitAnn(n) THEN "yes" ELSE "no") ELSE @]
-        /\ chan' = [chan EXCEPT ![n] = subs[n]]
+        \* BugStaleChan: an empty channel entry that was never announced is not swept (the node keeps accepting messages for it)
+        /\ chan' = [chan EXCEPT ![n] = IF BugStaleChan /\ chan[n] /\ ~subs[n] /\ ~pubbed[n] THEN TRUE ELSE subs[n]]
         \* BugNoRepub: the un-announcing sweep forgets to clear the 'announced' mark, so a later re-subscription is never announced
         /\ pubbed' = [pubbed EXCEPT ![n] = IF BugNoRepub /\ unann THEN TRUE ELSE subs[n]]
   /\ UNCHANGED <<up, subs, view, frozen, togs, relinks, waited, hist, done>>
@@ -97,6 +98,8 @@ Spec == Init /\ [][Next]_vars
 \* C29: at quiescence what every neighbour believes equals the local subscription
 UpNbr(n) == {m \in Node : {n, m} \in up /\ m # n}
 ViewsConverged == Quiet => \A n \in Node : \A m \in UpNbr(n) : (m \in view[n]) <=> subs[m]
+\* the channel map holds no entry without a subscription once the loop has run (such an entry makes the node accept foreign messages)
+NoStaleChan == Quiet => \A n \in Node : chan[n] => subs[n]
 \* every link is eventually served by both ends
 SessionsComplete == Quiet => \A n \in Node : sess[n] = {m \in Node : {n, m} \in up /\ m # n}
 View == <<up, pend, sess, chan, subs, pubbed, view, q, cache, frozen, togs, relinks, waited>>
